@@ -16,7 +16,8 @@ RUNS = {'quick': 20000, 'thorough': 400000}
 CHUNK = 60
 PROBES = ['large_capture', 'record_with_zero_timestamp_and_debugid', 'pid_with_top_bit_set', 'abandoned_parse_before', 'crashed_parse_before', 'v3_with_logs_before', 'residue_before', 'duplicate_tid_in_map',
           'duplicate_pid_in_map', 'empty_map', 'pad_nonzero', 'pad_zero', 'arbitrary_record_bytes', 'name_19_bytes',
-          'bytes_after_nul', 'same_kdbuf_object_reused', 'zero_records', 'first_record_leading_zero']
+          'bytes_after_nul', 'same_kdbuf_object_reused', 'zero_records', 'first_record_leading_zero',
+          'other_request_pending_when_created']
 RULE = ('one run = a history of 1..7 operations on one long-lived table pair (full / abandoned / crashed / v3 parses, residue '
         'writes) followed by the judged complete parse of a seeded v2 file (thread map 0..8 entries with duplicate keys, pad '
         '0..4 KiB, 0..40 records from SimKernel or arbitrary bytes); non-trivial = the history left >= 1 table entry that the '
@@ -90,7 +91,13 @@ def generate(rng, index, tier):
     if rng.chance(0.04):
         # finding F11: a first record that begins with zero bytes (statement: "including records that begin with zero bytes")
         judged['zero_lead'] = rng.randint(1, 8)
-    return {'history': hist, 'judged': judged, 'api': rng.pick(API)}
+    scn = {'history': hist, 'judged': judged, 'api': rng.pick(API)}
+    if rng.chance(0.12):
+        # requests are lazy: another request on the same tables is created before or after the judged one is created and
+        # is consumed completely before the judged one is pulled for the first time (the schedule of first pulls is seeded)
+        scn['pending'] = [{'file': _gen_file(rng, arbitrary=False), 'created': rng.pick(['before', 'after']),
+                           'pulled': rng.pick(['all', 'all', 'some', 'none'])} for _ in range(rng.randint(1, 2))]
+    return scn
 
 
 def _file_bytes(f):
@@ -216,7 +223,36 @@ def execute(scn):
         bump('probe:first_record_leading_zero')
     viols = []
     viols_pre = None
-    items, exc = common.drain(lambda: start(data))
+    pending = scn.get('pending', []) if api in ('pk', 'kd_new', 'kd_same') else []
+    waiting = []
+
+    def create_pending(when):
+        for pd in pending:
+            if pd.get('created') == when:
+                pdata, _prb = _file_bytes(pd['file'])
+                try:
+                    waiting.append((pd, iter(start(pdata))))
+                except Exception:
+                    pass
+    if pending:
+        bump('probe:other_request_pending_when_created')
+        bump('fault:pending_request')
+        create_pending('before')
+        try:
+            judged_gen, exc0 = start(data), None
+        except Exception as e:
+            judged_gen, exc0 = None, e
+        create_pending('after')
+        shape.extend('pending-%s-%s' % (pd.get('created'), pd.get('pulled')) for pd, _ in waiting)
+        for pd, it in waiting:
+            # the other requests run (to their end, for a few events, or not at all) before the judged one is pulled
+            if pd.get('pulled') == 'all':
+                common.drain(it)
+            elif pd.get('pulled') == 'some':
+                common.drain(it, limit=2)
+        items, exc = ([], exc0) if exc0 is not None else common.drain(judged_gen)
+    else:
+        items, exc = common.drain(lambda: start(data))
     if api == 'kd_noargs' and state['kd'] is not None:
         judged_kd = state['kd']
         tp, pn = judged_kd.threads_pids, judged_kd.pids_names
